@@ -56,6 +56,10 @@ CHECKS["C14"] = dict(level="other", design="3/C14", technique="call-graph reacha
     text="Decides only the property's last sentence: to_string, to_chars_static and operator<< (scaled_integer, 128-bit integers) obtain their text from cnl::to_chars applied to the same value, pass the result's own character array as the buffer, compute the length from the returned pointer, and cannot reach any other number formatter.",
     note="Digit generation, truncation direction and exponent after rescaling are loops over run-time digits and are not decided.")
 
+CHECKS["C15"] = dict(level="other", design="3/C15", technique="IR equivalence of the parser's table functions with their specification, call-site constant extraction from scan_base, and type-level deduction facts",
+    text="Decides the structural part: per-digit scale equals the base, the chunk factor equals base^stride for the stride scan_base itself announces (so a stride/chunk disagreement, invisible to tokens shorter than one chunk, is caught), digit tables are correct on every valid character class and mutual negations, a chunk fits the int64 accumulator, the bit-width estimate is >= log2(base) per digit; digits/signedness/exponent of types deduced from values.",
+    note="That a given token or constant<V> yields exactly its value / used-digit count is NOT decided: it would require evaluating parse/used_digits/trailing_bits on values.")
+
 NOT_APPLICABLE = {
     "C10": "limb-array loops of the vendored uintwide_t have data-dependent control; no static abstraction in reach relates them to arithmetic mod 2^N (DESIGN 3/C10)",
     "C17": "termination/accuracy of the floating-point driven Stern-Brocot loop is a numerical statement with no structural clause (DESIGN 3/C17)",
